@@ -1,0 +1,95 @@
+//go:build verif
+
+package parse
+
+import (
+	"context"
+	"sync/atomic"
+
+	"github.com/antlr/antlr4/runtime/Go/antlr"
+)
+
+// Verification hooks, compiled only with `-tags verif`. They let an external monitor
+// observe (and, at the entry of collectSpecs, delay) the import-closure retrieval, check
+// the listener's stacks at quiescent points and count the grammar rules entered.
+// The hook variables must be set before Parse is called and not changed while it runs.
+
+// VerifEvent is one observation of the import retrieval.
+//
+//	enter  : collectSpecs invoked for File at Depth (N = token of the spawning invocation, 0 for the root);
+//	         the hook may block here: this is before the depth test and before the claim lock
+//	cut    : the invocation returned because of the depth limit
+//	lost   : the file had already been claimed
+//	won    : this invocation claimed the file (after the claim lock was released)
+//	spawn  : the invocation is about to start N child invocations
+//	wait   : the invocation is about to wait for its children
+//	return : the invocation returns
+//	flat   : File is entry number Depth of the flattened processing order
+//	begin / end : Parse started / finished collecting
+type VerifEvent struct {
+	Token uint64
+	Kind  string
+	File  string
+	Depth int
+	N     int
+}
+
+// VerifHook receives every VerifEvent synchronously.
+var VerifHook func(VerifEvent)
+
+// VerifWalkHook is called after each file's tree walk with the sizes of the listener's stacks.
+var VerifWalkHook func(file string, depths map[string]int)
+
+// VerifRuleHook is called on every grammar rule entered during a tree walk.
+var VerifRuleHook func(ruleIndex int)
+
+var verifToken uint64
+
+type verifParentKey struct{}
+
+func verifEnter(ctx context.Context, file string, depth int) uint64 {
+	h := VerifHook
+	if h == nil {
+		return 0
+	}
+	tok := atomic.AddUint64(&verifToken, 1)
+	parent, _ := ctx.Value(verifParentKey{}).(uint64)
+	h(VerifEvent{Token: tok, Kind: "enter", File: file, Depth: depth, N: int(parent)})
+	return tok
+}
+
+func verifEvent(tok uint64, kind, file string, depth, n int) {
+	if h := VerifHook; h != nil {
+		h(VerifEvent{Token: tok, Kind: kind, File: file, Depth: depth, N: n})
+	}
+}
+
+func verifSpawn(ctx context.Context, tok uint64, n int) context.Context {
+	if VerifHook == nil {
+		return ctx
+	}
+	verifEvent(tok, "spawn", "", 0, n)
+	return context.WithValue(ctx, verifParentKey{}, tok)
+}
+
+func verifAfterWalk(s *TreeShapeListener, file string) {
+	if h := VerifWalkHook; h != nil {
+		h(file, map[string]int{
+			"stmt_scope":           len(s.stmt_scope),
+			"expr_stack":           len(s.expr_stack),
+			"fieldname":            len(s.fieldname),
+			"urlPrefixes":          len(s.urlPrefixes.parts),
+			"rest_attrs":           len(s.rest_attrs),
+			"rest_urlparams":       len(s.rest_urlparams),
+			"currentTypePath":      len(s.currentTypePath.parts),
+			"currentMultiLineAnno": len(s.currentMultiLineAnno),
+		})
+	}
+}
+
+// EnterEveryRule shadows the embedded no-op so that rule coverage can be observed.
+func (s *TreeShapeListener) EnterEveryRule(ctx antlr.ParserRuleContext) {
+	if h := VerifRuleHook; h != nil {
+		h(ctx.GetRuleIndex())
+	}
+}
